@@ -203,6 +203,50 @@ def applyWrites : List (Addr × Value) → Io → Io × Option Err
     | .ok io' => applyWrites rest io'
     | .error e => (io, some e)
 
+/-! ### Vocabulary of the property statement (used by Props/C08.lean only) -/
+
+/-- "The safe value has the size of its address": the address is not a wildcard and either is
+hierarchical (any value is stored) or the value is of the variant `write` accepts for the size
+and in the range of its Rust integer type (`bit <= 7` is what `IoAddress::parse` guarantees). -/
+def fits (a : Addr) (v : Value) : Bool :=
+  !a.wildcard &&
+  (decide (a.path.length > 1) ||
+    match a.size, v with
+    | .bit, .bool _ => decide (a.bit ≤ 7)
+    | .byte, .byte n => decide (n < 256)
+    | .word, .word n => decide (n < 65536)
+    | .dword, .dword n => decide (n < 4294967296)
+    | .lword, .lword n => decide (n < 18446744073709551616)
+    | _, _ => false)
+
+/-- `IoInterface::write(a, v)` succeeds (independent of the image contents). -/
+def writable (a : Addr) (v : Value) : Bool :=
+  !a.wildcard &&
+  (decide (a.path.length > 1) ||
+    match a.size, v with
+    | .bit, .bool _ => true
+    | .byte, .byte _ => true
+    | .word, .word _ => true
+    | .dword, .dword _ => true
+    | .lword, .lword _ => true
+    | _, _ => false)
+
+/-- Two flat addresses of the same area do not overlap: disjoint byte ranges, or two different
+bits of the same byte. -/
+def flatIndep (a b : Addr) : Bool :=
+  decide (a.byte + a.size.width ≤ b.byte) || decide (b.byte + b.size.width ≤ a.byte) ||
+  (a.size == .bit && b.size == .bit && a.byte == b.byte && a.bit != b.bit)
+
+/-- A write to `b` cannot change what a read of `a` returns. -/
+def indep (a b : Addr) : Bool :=
+  b.wildcard ||
+  (if a.path.length > 1 then !decide (b.path.length > 1) || a.key != b.key
+   else decide (b.path.length > 1) || a.area != b.area || flatIndep a b)
+
+/-- A later safe-state entry that cannot disturb the value configured for `a`: it touches
+something else, or its own write is rejected. -/
+def harmless (a : Addr) (e : Addr × Value) : Bool := indep a e.1 || !writable e.1 e.2
+
 /-! ## Policies and decisions (`watchdog.rs`) -/
 
 inductive FaultPolicy | halt | safeHalt | restart
@@ -247,6 +291,15 @@ inductive Ev
   | fault (e : Err)
   | cycleEnd
 deriving DecidableEq, Repr
+
+/-- The last image driver `d` was handed in a sequence of events. -/
+def lastWrite (d : Nat) : List Ev → Option (List Nat)
+  | [] => none
+  | .drvWrite d' img :: rest =>
+    match lastWrite d rest with
+    | some i => some i
+    | none => if d' = d then some img else none
+  | _ :: rest => lastWrite d rest
 
 /-- The compiled application and its environment: arbitrary functions.
 `σ` = everything the programs can see or change (variable storage, task states);
